@@ -1,7 +1,10 @@
 #!/bin/bash
-# usage: seedrun.sh <patch.diff> <prop>...   -- apply a seeded change to /repo, run the given quick checks, undo
+# usage: seedrun.sh <patch.diff> <prop>...   -- apply a seeded change to /repo, run the given quick checks, undo.
+# The evidence files describe the UNCHANGED tree: they are saved before and restored after the seeded runs.
 P=$1; shift
-cd /repo && git apply "$P" || { echo "patch does not apply to /repo"; exit 2; }
+SAVE=$(mktemp -d /tmp/evidence_save.XXXXXX)
+cp -a /verif/evidence/. "$SAVE"/
+cd /repo && git apply "$P" || { echo "patch does not apply to /repo"; rm -rf "$SAVE"; exit 2; }
 cd /verif
 for id in "$@"; do
   ./check $id --tier quick > /tmp/seedrun_$id.txt 2>&1; rc=$?
@@ -9,3 +12,5 @@ for id in "$@"; do
 done
 git -C /repo checkout -- .
 git -C /repo status --short | head -3
+cp -a "$SAVE"/. /verif/evidence/
+rm -rf "$SAVE"
